@@ -2,29 +2,56 @@ import HexProofs.Numeric.AvgExtra
 import HexProofs.Numeric.Composite
 import HexProofs.Numeric.SeriesMore
 import HexProofs.Numeric.Demo
+import HexProofs.Numeric.SeriesHMA
+import HexProofs.Numeric.SeriesWindows
 /-
 C04 – Moving averages match their definitions and are position independent
 (NUMERIC layer: ordered field `K` with `LawfulPyF K`; see HexProofs/Numeric/Lawful.lean for the
 trusted gap – IEEE rounding error, overflow and NaN are outside these theorems).
 
-What is proved here, per `_calculate_reading` call: given the readings the Python method reads
-(named through `Ctx.reading` / `Ctx.prevReading`, addressed RELATIVE to the active index), the
-returned value is the textbook expression in those readings.  Because every statement mentions
-the inputs only through their offsets from the active index, the value does not depend on where
-in the candle list the input series starts (`*_position_independent`).  `rsum p f = Σ_{k<p} f k`.
+WHAT IS PROVED NOW
 
-On top of the per-call theorems, the WHOLE-SERIES theorems `sma_series`, `ema_series`, `rma_series`,
-`wma_series`, `vwma_series` are proved for a top-level average over a candle field: the row-major
-run (`rowMajor`, which by C01 is what `calculate()` and every append schedule compute) never
-raises, the first reading appears exactly at index `period − 1`, and every stored reading is within
-the stated rounding budget of the textbook series.
+1. Per `_calculate_reading` call (SMA, EMA, RMA, WMA, VWMA, HMA assembly): given the readings the
+   Python method reads (named through `Ctx.reading` / `Ctx.prevReading`, addressed RELATIVE to the
+   active index), the returned value is the textbook expression in those readings.  Because every
+   statement mentions the inputs only through their offsets from the active index, the value does
+   not depend on where in the candle list the input series starts (`*_position_independent`) – this
+   is the part that covers inputs that are ANOTHER indicator's reading and inputs that begin late.
+   `rsum p f = Σ_{k<p} f k`.
 
-Missing for the full property (kept as `C04_FULL` below): the whole-series statement for an input
-that is ANOTHER INDICATOR's reading beginning late (the per-call theorems and
-`*_position_independent` cover each call; the series induction over a candle list that already
-holds foreign readings is not done), the same through the engine `calculate` for the kinds whose
-leaf contract is not yet proved in HexProofs/Framework (EMA, RMA, WMA, VWMA), and the HMA
-composition through its managed series.
+2. Whole series, every raw stream, input a candle field (`sma_series`, `ema_series`, `rma_series`,
+   `wma_series`, `vwma_series`, `period ≥ 2`): the row-major run never raises, the first reading
+   appears exactly at index `period − 1`, and every stored reading is within the stated rounding
+   budget of the textbook series (SMA: `(j − (period−1) + 1)·ε_n`, growing with the running update;
+   EMA: `ε_n/a`, RMA: `ε_n·period`, not growing; WMA / VWMA: `ε_n`).  `series_engine` / `series_live`:
+   that row-major run IS what the engine's `calculate()`, the batch run of the object and every
+   append schedule return (all five kinds are `Covered` leaf kinds: their framework contracts are
+   proved).  `C04_FULL_raw`: the instance of `C04_FULL` for raw candles through the engine.
+
+3. HMA, whole series (`hma_series`, `hma_candles`, `hma_series_batch`, `hma_batch_readings`,
+   `hma_series_live`, `hma_budget`; `period = p ≥ 2`, input a candle field), through its two prior
+   WMA helpers and its managed raw series: for EVERY raw stream the run returns and candle `j` is an
+   explicit function `hmaDeco` of the raw candles with
+     * `name_WMA`  = `None` before index `p − 1`, then `round₄(WMA_p(x))`               (within `ε₄`),
+     * `name_WMAh` = `None` before index `⌊p/2⌋ − 1`, then `round₄(WMA_{⌊p/2⌋}(x))`      (within `ε₄`),
+     * `name_HMAr` = absent before `p − 1`, then EXACTLY `2·name_WMAh − name_WMA` of the two STORED
+       readings (`Managed.set_reading` does not round)                (within `3·ε₄` of the textbook),
+     * `name_HMAs` = `None` before the TRUE WARM-UP INDEX `hmaT0 p = (p − 1) + (⌊√p⌋ − 1)`, then
+       `round₄(WMA_{⌊√p⌋}(name_HMAr))`             (within `4·ε₄` of the textbook HMA, at every index),
+     * `name`      = `name_HMAs` rounded to the node's `rounding` `n`: `None` before `hmaT0 p`, then
+       within `ε_n + 4·ε₄` of `WMA_{⌊√p⌋}(2·WMA_{⌊p/2⌋}(x) − WMA_p(x))`; with the default `n = 4` the
+       second rounding is the identity (`hma_own_default`).
+   Helper series are rounded to `defaultRound = 4` decimals by the engine whatever the node's own
+   `rounding` is – this is why the budget is stated in `ε₄` and `ε_n` separately.
+   The series theorems are over the base timeframe (`runIndicator … {} …`, no collapsing);
+   `hma_series_live` covers every append schedule.
+
+STILL OPEN (`C04_FULL` below): the whole-series statement over a candle list that ALREADY HOLDS
+other indicators' readings, for an input that is another indicator's reading and starts late
+(the per-call theorems and `*_position_independent` cover each call; the series induction needs the
+key-locality half of the framework `Contract` along foreign columns); the numeric statement on a
+collapsing timeframe (C01/C03 give live = batch and the collapse structurally; the series theorems
+are not composed with `collapse`); IEEE effects.
 -/
 namespace Hex.C04
 open Hex Hex.Numeric
